@@ -107,6 +107,8 @@ pub fn run_case(id: &str, tier: Tier, s: &Script) -> CaseResult {
 
 fn run_one(id: &str, views: u32, s: &Script) -> CaseResult {
     let cfg_id = id.to_string();
+    // debugging aid: treat every view as enabled
+    let views = if std::env::var_os("CX_ALL_VIEWS").is_some() { u32::MAX & !(1 << 31) } else { views };
     exec::run_forked(views, CASE_TIMEOUT_S, || {
         let cfg = props::world_cfg(&cfg_id, s.mode);
         interp::run_script(s, cfg);
